@@ -44,7 +44,7 @@ ASSUMPTIONS = [
     "tau_max is a constructor argument without public setter, so the refit history varies the data (realisation and length) only",
     "a TypeError/ValueError for an integer option given as numpy integer or integer-valued float is a refusal (tallied, not judged); a Python int is never refused",
 ]
-TALLY_KEYS = ("data", "prov", "n", "tau_max", "n_pca_modes", "solver", "topt", "ttype", "tlab")
+TALLY_KEYS = ("data", "prov", "n", "tau_max", "n_pca_modes", "solver", "topt", "ttype", "tlab", "unit")
 TRUSTED = ["statsmodels import shim not used here"]
 
 NLAT, NLON = 3, 2
@@ -115,6 +115,15 @@ def cases(tier, seed):
             for tlab in TLABELS[1:]:
                 for (k, m) in pairs:
                     out.append(dict(base, data=data, n=40, tau_max=tau_max, n_pca_modes=k, n_modes=m, tlab=tlab))
+    # ---- physical units: the same field in units that make its numbers tiny or huge (kg/kg, Pa); nothing the property states
+    #      depends on a global factor (un-standardised fields)
+    for data in DATA:
+        r = RANK[data]
+        pairs = [(k, m) for k in range(2, r + 1) for m in range(1, k + 1)] if tier == "thorough" else [(2, 2), (r, 1), (r, r)]
+        for tau_max in ((1, 2, 5, 13) if tier == "thorough" else (2, 5)):
+            for unit in ((1e-4, 1e-8, 1e6) if tier == "quick" else (1e-3, 1e-4, 1e-6, 1e-8, 1e-12, 1e6)):
+                for (k, m) in pairs:
+                    out.append(dict(base, data=data, n=40, tau_max=tau_max, n_pca_modes=k, n_modes=m, unit=unit))
     # ---- long lag window
     for data in (DATA if tier == "thorough" else ("ar_mix_noise", "osc_noise")):
         r = RANK[data]
@@ -180,7 +189,7 @@ def time_labels(kind, n):
 def build_input(case, seed, n=None, salt=0):
     import xarray as xr
 
-    X = make_series(case["data"], n or case["n"], seed, salt)
+    X = make_series(case["data"], n or case["n"], seed, salt) * float(case.get("unit", 1.0))
     da = D.da_grid(X, NLAT, NLON, lats=LATS)
     if case.get("tlab", "ascending") != "ascending":
         da = da.assign_coords(time=time_labels(case["tlab"], da.sizes["time"]))
@@ -251,6 +260,8 @@ def run_case(case, seed):
         feats["time_labels"] = case["tlab"]
     if ttype != "int":
         feats.update(argtype=ttype, arg=topt)
+    if case.get("unit", 1.0) != 1.0:
+        feats.update(small_unit=bool(case["unit"] < 1.0))
     if tmax > 256:
         feats.update(tau_max_gt_256=True)
 
